@@ -544,11 +544,7 @@ void dyn_array_set_struct(DynArray* arr, int64_t index, const void* struct_ptr, 
     assert(arr->elem_type == ELEM_STRUCT && "DynArray: Type mismatch");
     assert(arr->elem_size == struct_size && "DynArray: Struct size mismatch");
     
-    if (index < 0 || index >= arr->length) {
-        fprintf(stderr, "DynArray: Index out of bounds: %lld (length: %lld)\n", 
-                (long long)index, (long long)arr->length);
-        return;
-    }
+    assert(index >= 0 && index < arr->length && "DynArray: Index out of bounds");
     
     /* Copy struct into array */
     void* dest = (uint8_t*)arr->data + (index * arr->elem_size);
